@@ -25,29 +25,56 @@ def C19Ok (f : ProcEnv → String → FmtOutcome) : Prop :=
   (∀ env raw out, env.Succeeded out → out ≠ "" → f env raw = .returned out) ∧
   (∀ env raw, ∀ why, f env raw ≠ .panicked why)
 
-/-- **C19 counterexample** (the defect): when the formatter is gone before its input is written
-(`write_all` fails with EPIPE) the function panics; when it succeeds printing nothing the empty
-string is returned instead of the program. -/
-theorem C19_counterexample :
-    prettyPrintRustfmt { spawn := true, write := false, wait := some (false, some "") } "fn main(){}"
-      = .panicked "write_all(..).unwrap()" ∧
-    prettyPrintRustfmt { spawn := true, write := true, wait := some (true, some "") } "fn main(){}"
-      = .returned "" := by decide
-
-/-- **C19 (partial)**: for the faults the code as it stands handles – formatter absent, or exit
-status ≠ 0 after the input was taken – the unformatted program is returned. -/
-theorem C19_partial (env : ProcEnv) (raw : String)
-    (h : env.spawn = false ∨ (env.write = true ∧ ∃ o, env.wait = some (false, o))) :
+/-- **C19** (faults): every fault the property lists makes the function return the unformatted
+program. -/
+theorem C19_faults (env : ProcEnv) (raw : String) (h : env.Failed) :
     prettyPrintRustfmt env raw = .returned raw := by
   unfold prettyPrintRustfmt
-  rcases h with h | ⟨hw, o, ho⟩
-  · simp [h]
-  · cases hs : env.spawn <;> simp [hw, ho]
+  obtain ⟨sp, wr, wt⟩ := env
+  unfold ProcEnv.Failed at h
+  simp only at h ⊢
+  cases sp <;> cases wr <;> simp only [Bool.not_true, Bool.not_false, if_true, if_false, Bool.false_eq_true]
+  all_goals first
+    | rfl
+    | (cases wt with
+       | none => rfl
+       | some p =>
+         obtain ⟨succ, out⟩ := p
+         cases succ <;> cases out <;> simp_all)
 
-/-- a successful formatter's output is returned -/
-theorem C19_ok (env : ProcEnv) (raw out : String) (h : env.Succeeded out) :
+/-- **C19** (success): a formatter that ran to completion and printed something is believed. -/
+theorem C19_ok (env : ProcEnv) (raw out : String) (h : env.Succeeded out) (hne : out ≠ "") :
     prettyPrintRustfmt env raw = .returned out := by
   obtain ⟨h1, h2, h3⟩ := h
-  unfold prettyPrintRustfmt; simp [h1, h2, h3]
+  unfold prettyPrintRustfmt; simp [h1, h2, h3, hne]
+
+/-- **C19** (total): whatever the operating system answers, the function never panics. -/
+theorem C19_total (env : ProcEnv) (raw why : String) : prettyPrintRustfmt env raw ≠ .panicked why := by
+  unfold prettyPrintRustfmt
+  obtain ⟨sp, wr, wt⟩ := env
+  cases sp <;> cases wr <;> simp only [Bool.not_true, Bool.not_false, if_true, if_false, Bool.false_eq_true]
+  all_goals first
+    | (intro h; cases h)
+    | (cases wt with
+       | none => intro h; cases h
+       | some p =>
+         obtain ⟨succ, out⟩ := p
+         cases succ <;> cases out <;> simp <;> (try (split <;> simp)))
+
+/-- **C19**: the three clauses together. -/
+theorem C19 : C19Ok prettyPrintRustfmt :=
+  ⟨C19_faults, fun env raw out h hne => C19_ok env raw out h hne, C19_total⟩
+
+/-- The finding this check made (repaired in /repo): before the repair the function panicked when
+the formatter was gone before its input was written (`write_all` fails with EPIPE), and returned
+the empty string when the formatter succeeded printing nothing. -/
+theorem C19_legacy_counterexample :
+    Legacy.prettyPrintRustfmt { spawn := true, write := false, wait := some (false, some "") } "fn main(){}"
+      = .panicked "write_all(..).unwrap()" ∧
+    Legacy.prettyPrintRustfmt { spawn := true, write := true, wait := some (true, some "") } "fn main(){}"
+      = .returned "" := by decide
+
+/-- non-vacuity: a formatter killed before reading is a `Failed` environment -/
+example : ({ spawn := true, write := false, wait := some (false, some "") } : ProcEnv).Failed := Or.inr (Or.inl rfl)
 
 end WgslVerif
